@@ -179,11 +179,11 @@ fn c05_integral_fresh_after_error() { integral::fresh_after_error(); }
 #[kani::proof]
 fn c05_integral_fresh_after_absent() { integral::fresh_after_absent(); }
 
-//@ob fn="<IntegralStream<G,E> as Updatable>::update" at=src/streams/math.rs:500 clause="freshness, present event, arbitrary pre-state (cached error included): update returns Ok and get() is NOT an error, because this update's input was not an error (A7, constant input unit)"
+//@ob fn="<IntegralStream<G,E> as Updatable>::update" at=src/streams/math.rs:500 also=rel_check clause="freshness, present event, arbitrary pre-state (cached error included): update returns Ok and get() is NOT an error, because this update's input was not an error (A7, constant input unit)"
 #[kani::proof]
 fn c05_integral_fresh_after_present() { integral::fresh_after_present(); }
 
-//@ob fn="<IntegralStream<G,E> as Updatable>::update" at=src/streams/math.rs:500 clause="structure of a present sample: the sample is stored bit for bit as the previous sample; with no previous sample an absent value stays absent, otherwise the value is present and stamped with the sample's time; input read once (A7, constant input unit)"
+//@ob fn="<IntegralStream<G,E> as Updatable>::update" at=src/streams/math.rs:500 also=rel_check clause="structure of a present sample: the sample is stored bit for bit as the previous sample; with no previous sample an absent value stays absent, otherwise the value is present and stamped with the sample's time; input read once (A7, constant input unit)"
 #[kani::proof]
 fn c05_integral_present_structure() { integral::present_structure(); }
 
@@ -220,11 +220,11 @@ fn c05_derivative_fresh_after_error() { derivative::fresh_after_error(); }
 #[kani::proof]
 fn c05_derivative_fresh_after_absent() { derivative::fresh_after_absent(); }
 
-//@ob fn="<DerivativeStream<G,E> as Updatable>::update" at=src/streams/math.rs:440 clause="freshness, present event, arbitrary pre-state (cached error included): update returns Ok and get() is NOT an error, because this update's input was not an error (A7, constant input unit)"
+//@ob fn="<DerivativeStream<G,E> as Updatable>::update" at=src/streams/math.rs:440 also=rel_check clause="freshness, present event, arbitrary pre-state (cached error included): update returns Ok and get() is NOT an error, because this update's input was not an error (A7, constant input unit)"
 #[kani::proof]
 fn c05_derivative_fresh_after_present() { derivative::fresh_after_present(); }
 
-//@ob fn="<DerivativeStream<G,E> as Updatable>::update" at=src/streams/math.rs:440 clause="structure of a present sample: the sample is stored bit for bit as the previous sample; with no previous sample an absent value stays absent, otherwise the value is present and stamped with the sample's time; input read once (A7, constant input unit)"
+//@ob fn="<DerivativeStream<G,E> as Updatable>::update" at=src/streams/math.rs:440 also=rel_check clause="structure of a present sample: the sample is stored bit for bit as the previous sample; with no previous sample an absent value stays absent, otherwise the value is present and stamped with the sample's time; input read once (A7, constant input unit)"
 #[kani::proof]
 fn c05_derivative_present_structure() { derivative::present_structure(); }
 
